@@ -36,6 +36,7 @@ func runC18(c *core.Ctx) {
 	c18LoopProgress(c, fns)
 	c18StatusGate(c)
 	validDigestMeansParseable(c, "C18.R1")
+	clientLocksAcyclic(c, "C18.R4")
 }
 
 func c18Discharger(c *core.Ctx, m *serverModel) Discharger {
